@@ -24,6 +24,12 @@ func Check(p *Program, mode string) []Issue {
 }
 
 func CheckResult(p *Program, res Result, mode string) []Issue {
+	if BinaryBuild {
+		// the properties that are not about an encoding hold in both builds: under binary_log every write is
+		// parsed as CBOR and compared with the same expected events (keys in order, values in zerolog's
+		// CBOR representation; the comparison is always a full one there)
+		return checkResult(p, res, mode, cborCodec{})
+	}
 	return checkResult(p, res, mode, jsonCodec{p})
 }
 
